@@ -592,3 +592,18 @@ package tree
 //@   internal only_if: old(s.cacheRemains) == nil && result ==> callres(LeafVariants_remainsToExist) ||
 //@            exstr(k, present(callres(filterActiveChoiceCaseChilds), k) && rem(callres(filterActiveChoiceCaseChilds)[k])) || callres(choiceCasesResolvers_remainsToExist)
 //@   loop 0 invariant no_child_remains_so_far: $map == callres(filterActiveChoiceCaseChilds) && allstr(k, $visited[k] ==> !rem($map[k])) && !childsRemain
+
+// ---------------------------------------------------------------------------
+// C08: what the choice resolver is told about a case member is the best (lowest) priority value of the member's
+// branch over both sources, the intents in the intended store (index, actual owner excluded) and the tree; a stored
+// contribution is never ignored because the branch also has a (weaker) value in the tree
+//@ func (*sharedEntryAttributes).populateChoiceCaseResolvers
+//@   props C08
+//@   nosafety only what is handed to the resolver is claimed here
+//@   requires s != nil
+//@   loop 1 invariant member_gets_the_best_of_index_and_tree [C08]: called(SetValue) ==>
+//@            callarg(SetValue, 0, 2) <= callres(GetBranchesHighesPrecedence) &&
+//@            (callres(GetEntry, 0, 1) ==> callarg(SetValue, 0, 2) <= callres(getHighestPrecedenceValueOfBranch)) &&
+//@            (callarg(SetValue, 0, 2) == callres(GetBranchesHighesPrecedence) || (callres(GetEntry, 0, 1) && callarg(SetValue, 0, 2) == callres(getHighestPrecedenceValueOfBranch))) &&
+//@            callarg(SetValue, 0, 3) == (callres(GetEntry, 0, 1) && callres(getHighestPrecedenceValueOfBranch) <= callres(GetBranchesHighesPrecedence))
+//@   loop 1 invariant member_is_the_one_asked_about [C08]: called(SetValue) ==> callarg(SetValue, 0, 1) == callarg(GetEntry, 0, 1)
